@@ -95,12 +95,15 @@ def run(ctx):
     from vf import model
     from vf.props.c12 import gen_weighting
     model.check_analysis()
-    for idx in ctx.cases(quick=48, thorough=320):
+    for idx in ctx.cases(quick=110, thorough=420):
         rng = ctx.rng(idx)
         ctx.reseed_global(idx)
-        h = model.gen_history(rng, ndocs=(30, 400) if rng.random() < 0.7 else (5, 40), boosts=rng.random() < 0.5, maxlen=8,
+        h = model.gen_history(rng, ndocs=(30, 400) if rng.random() < 0.7 else (5, 40), boosts=rng.random() < 0.5, maxlen=8, burst=rng.choice([0.0, 0.05, 0.15]),
                               delete_modes=("none", "few", "many", "segment"))
         h["blocklimit"] = rng.choice([2, 2, 4, 16, 128])
+        if idx % 29 == 3:
+            h = model.gen_big_history(rng, small_first=rng.random() < 0.7)
+            ctx.count("c05.big_segment_cases")
         wname, wobj = gen_weighting(rng)
         wb = {"history": {"commits": [len(c) for c in h["commits"]], "deletes": len(h["deletes"]),
                           "blocklimit": h["blocklimit"], "storage": h["storage"]}, "case_idx": idx, "weighting": wname}
